@@ -741,3 +741,44 @@ def _(E, p):
     span = E.tup("x_span", (float(x[0]), float(x[-1])))
     out.append(solve_ode_ivp(span, fx, coeffs, y0, transform=tf, method=["DOP853", "RK45", "Radau"][p % 3])(E.arr("eval2", x[1:-1] * 0.9)))
     return out
+
+
+@entry("invalid_calls_2", 2.5)
+def _(E, p):
+    """More operations that the library rejects part-way through (second batch)."""
+    from grid.atomgrid import AtomGrid
+    from grid.basegrid import OneDGrid
+    from grid.becke import BeckeWeights
+    from grid.cubic import UniformGrid
+    from grid.molgrid import MolGrid
+    from grid.ode import solve_ode_ivp
+    from grid.poisson import solve_poisson_bvp
+    from grid.rtransform import BeckeRTransform, InverseRTransform, LinearInfiniteRTransform
+
+    v = p % 9
+    if v == 0:  # one degree sector too many
+        return [AtomGrid.from_pruned(_rgrid(6), 1.0, E.lst("r_sectors", [0.5, 1.0]), E.lst("d_sectors", [3, 5, 7, 5]), center=E.arr("center", np.zeros(3)))]
+    if v == 1:  # lists of different lengths for the atoms
+        atnums, atcoords = _two_atoms(E)
+        return [MolGrid.from_pruned(atnums, atcoords, E.lst("radius", [1.0, 0.6]), E.lst("r_sectors", [[0.5, 1.0], [0.7]]), E.lst("d_sectors", [[3, 5, 3]]), rgrid=_rgrid(4), aim_weights=BeckeWeights())]
+    if v == 2:  # number of selected atoms does not match the number of sectors
+        atnums, atcoords = _two_atoms(E)
+        return [BeckeWeights().generate_weights(E.arr("points", _pts3(8, 140)), atcoords, atnums, select=E.lst("select", [0]), pt_ind=E.lst("pt_ind", [0, 4, 8]))]
+    if v == 3:  # wrong number of function values
+        g = UniformGrid(E.arr("origin", np.zeros(3)), E.arr("axes", np.eye(3) * 0.5), E.arr("shape", np.array([5, 5, 5]), dtype=int))
+        return [g.interpolate(E.arr("points", _pts3(2, 141, 0.5) + 1.0), E.arr("values", np.ones(100)))]
+    if v == 4:  # boundary of the wrong type, detected after the density was looked at
+        g, tf = _poisson_setup(E, 8, 3)
+        return [solve_poisson_bvp(g, E.arr("func_vals", _gauss(g.points, g.center, 1.0)), InverseRTransform(tf), boundary=1, ode_params=E.dct("ode_params", {"tol": 1e-4}))]
+    if v == 5:  # grid domain outside the transform domain
+        og = OneDGrid(E.arr("og_points", np.linspace(-0.9, 0.9, 7)), E.arr("og_weights", np.ones(7)), (-1.0, 1.0))
+        return [LinearInfiniteRTransform(0.1, 5.0).transform_1d_grid(og)]
+    if v == 6:  # wrong number of initial values
+        fx = E.cb("fx", lambda t: np.array(t, dtype=float), identity=True)
+        return [solve_ode_ivp(E.tup("x_span", (0.0, 1.0)), fx, E.lst("coeffs", [1.0, 0.5, 1.0]), E.arr("y0", np.array([0.0, 1.0, 2.0])))]
+    if v == 7:  # second derivative of an interpolant in Cartesian coordinates is not supported: raises after the splines were built
+        g = AtomGrid(_rgrid(5), degrees=[5], center=np.array([0.1, 0.0, 0.0]))
+        it = g.interpolate(E.arr("func_vals", _gauss(g.points, g.center, 0.8)))
+        return [it(E.arr("points", _pts3(4, 142, 0.8)), deriv=2)]
+    # element without tabulated default radial grid / preset data
+    return [AtomGrid.from_preset(119, "coarse", center=E.arr("center", np.zeros(3)))]
